@@ -4,6 +4,7 @@ From Coq Require Import List ZArith NArith Bool.
 From RRSS Require Import Base.Outcome Base.Chars Base.F64 Exec.Val Exec.Ops Front.Ast Exec.Env Exec.Interp.
 From RRSS Require Import Proofs.InterpInv Proofs.InterpLaws Proofs.InterpIO.
 From RRSS Require Import Proofs.InterpPure Proofs.InterpIOLaws.
+From RRSS Require Import Proofs.TraceBudget.
 Import ListNotations.
 
 (** each say writes exactly one line: the text and a line feed *)
@@ -101,7 +102,43 @@ Theorem C08_say_statement_writes_one_line :
     in_rest (chan e') = in_rest (chan e).
 Proof. exact stmt_say_writes_one_line. Qed.
 
+(** a writer with a byte budget [b] receives exactly the first [b] bytes of everything the program tried to write —
+    the lines of its says, whole or refused, in order — never a byte more, and bytes received + budget left is constant *)
+Theorem C08_output_is_truncation_of_attempts :
+  forall c tr c', io_steps c tr c' -> forall b, out_budget c = Some b ->
+  out_bytes c' = out_bytes c ++ firstn (N.to_nat b) (flat_map ev_line (attempted tr)) /\
+  out_budget c' = Some (b - len (flat_map ev_line (attempted tr)))%N.
+Proof. exact trace_budget. Qed.
+
+Theorem C08_writer_budget_conserved :
+  forall prof fuel p c b, out_budget c = Some b ->
+  match exec_program prof fuel p c with
+  | XOk _ e' | XErr _ e' =>
+      exists k, out_budget (chan e') = Some k /\ (len (out_bytes (chan e')) + k = len (out_bytes c) + b)%N
+  | _ => True
+  end.
+Proof. exact run_budget_conserved. Qed.
+
+(** without a budget nothing is refused: the output is all the lines said *)
+Theorem C08_unlimited_writer_takes_everything :
+  forall c tr c', io_steps c tr c' -> out_budget c = None ->
+  out_bytes c' = out_bytes c ++ flat_map ev_line (attempted tr) /\ no_fault tr = true /\ out_budget c' = None.
+Proof. exact trace_unlimited. Qed.
+
+(** the reader: the position advances by exactly the bytes taken from the front of the input, and no byte at or beyond
+    the fault position is ever delivered *)
+Theorem C08_reader_never_passes_fault :
+  forall prof fuel p c r, in_fault c = Some r -> (in_pos c <= r)%N ->
+  match exec_program prof fuel p c with
+  | XOk _ e' | XErr _ e' =>
+      (in_pos (chan e') <= r)%N /\ (in_pos (chan e') + byte_len (in_rest (chan e')) = in_pos c + byte_len (in_rest c))%N
+  | _ => True
+  end.
+Proof. exact run_reader_never_passes_fault. Qed.
+
 Print Assumptions C08_listen_consumes_one_line.
 Print Assumptions C08_run_is_listens_and_says.
 Print Assumptions C08_input_consumed_by_lines.
 Print Assumptions C08_say_statement_writes_one_line.
+Print Assumptions C08_writer_budget_conserved.
+Print Assumptions C08_reader_never_passes_fault.
